@@ -10,7 +10,7 @@ from .. import entrypoints as E
 from .. import world as W
 from ..dcp import DCP
 from ..interp import Obj, Unsupported
-from ..report import AnalysisError, Finding
+from ..report import AnalysisError, Finding, single
 from ..rules.c15 import events_of
 from ..samplealg import MEAN, Nn, SampleAlgebra, linearize, xi
 from ..term import Op, Sym, walk
@@ -154,11 +154,11 @@ def check(ctx, run):
     erm = Obj(L + "EntropicRiskMeasure", "criterion", dict(a=a_))
     h1 = W.hedger(prog, [W.feature("Moneyness", log=False)])
     h1.attrs["criterion"] = erm
-    pv = [r for r in interp.explore(price, [W.option()], dict(n_paths=W.integer("n_paths"), n_times=1), self_obj=h1) if not r["raises"]][0]["value"]
+    pv = single(interp.explore(price, [W.option()], dict(n_paths=W.integer("n_paths"), n_times=1), self_obj=h1))["value"]
     h2 = W.hedger(prog, [W.feature("Moneyness", log=False)])
     h2.attrs["criterion"] = Obj(L + "EntropicRiskMeasure", "criterion", dict(a=a_))
     cl = prog.lookup_method(W.HEDGER, "compute_loss")
-    lv = [r for r in interp.explore(cl, [W.option()], dict(n_paths=W.integer("n_paths"), n_times=1), self_obj=h2) if not r["raises"]][0]["value"]
+    lv = single(interp.explore(cl, [W.option()], dict(n_paths=W.integer("n_paths"), n_times=1), self_obj=h2))["value"]
     from ..termination import simp
     ok = str(simp(pv)) == str(simp(lv))  # symbolic objects differ by identity between the two runs; the printed term is canonical
     run.oblige("C06.R5", "EntropicRiskMeasure: price == loss (same term)", ok, "")
